@@ -15,9 +15,15 @@ CHECKS = {
     "C02": ("property-based metamorphic testing (segmentation / method / drain schedule must not change the output) + validity predicates (stuff-free, length bound) + exhaustive length sweep and small-scope enumeration",
             "Generated feeding plans are compared with a one-call encoding of the same input on a fresh Encoder; FE FD is searched in the full early-drained ++ finish() byte string; the length bound is checked on every case and on a complete sweep of lengths 0..600 and 252+k*64008+{-2..2}; a dedicated generator places FE FD across the last byte of the 252- and 64008-byte chunks.",
             "The one-call reference is the same Encoder; agreement with an independent codec is C07's subject.", "DESIGN.md §5 C02"),
+    "C06": ("differential property-based testing: generated streams (records, torn/corrupted records, garbage, delimiter runs, truncations) x scripted readers x block sizes x judge parameters, against an independent splitter + reference decoder",
+            "The exact list of (decoded bytes, byte range) returned by successive next_record_bytes calls, then end of stream, is compared with a reference computed by splitting the stream at every FE FD and decoding each segment with the reference decoder under the same size/offset limits; short reads down to one byte, EINTR, block sizes from 0 to the default, and a log truncated at every byte are generated.",
+            "Standard judge only; readers never fail hard; reference decoder of C07 defines validity.", "DESIGN.md §5 C06"),
     "C07": ("differential property-based testing against an independently written reference codec (encoder: byte equality; decoder: accept/reject verdict and bytes) with a mutation-based generator of malformed streams + small-scope exhaustive enumeration + every-position truncation",
             "Encoder output equals the reference encoding byte for byte on generated payloads/feeding plans; the decoder's verdict and output equal the reference decoder's on valid encodings, header mutations (253..255, near-limit sizes), set/insert/delete/truncate/append mutations and short arbitrary strings, under generated call segmentations; all strings over a header alphabet up to length 6 (7) with limits 3/5 and 2/3, and every truncation of boundary-length encodings, are enumerated.",
             "Trusts refimpl/hcobs_ref.rs (validated against the expected pairs of the crate's own unit tests).", "DESIGN.md §5 C07"),
+    "C08": ("property-based testing with a tiling invariant checked chunk by chunk against the input stream (running position, content equality, no FE FD inside or across Data chunks, sticky Eof)",
+            "Every chunk returned by pump is checked against the generated stream at the running position; the same streams, scripted readers (short reads, EINTR), block sizes {0,1,2,...,default} and arena preparations as C06.",
+            "Readers never fail hard or end early.", "DESIGN.md §5 C08"),
     "C09": ("property-based testing with an online invariant over the call history (observed bytes never change, drained = observable prefix, observable prefix of final output, lag bound) on generated drain schedules and on multi-MiB generated streams",
             "After every encoder/decoder call the consumable bytes are compared with everything seen before and with the final output; lag is checked against the constant bound after every call, on short messages with dense drain schedules and on streams of 2..24 MiB (16..320 MiB thorough) through Encoder, Decoder and Encoder->Decoder pipelines.",
             "Arena requests <= 512 KiB; the bound is checked as a constant.", "DESIGN.md §5 C09"),
